@@ -915,6 +915,8 @@ Proof.
     + cbn [andb] in S4. lia.
 Qed.
 
+Definition res_upd (ev : gev) (res : list gev) : list gev := match ev with GNone => res | _ => ev :: res end.
+
 (* one step of the interleaving semantics preserves the invariant *)
 Theorem step_inv pre s t s' a : Inv pre s -> stepx s t = Some (s', a) -> Inv pre s'.
 Proof.
@@ -923,7 +925,17 @@ Proof.
   assert (Hnf : N.of_nat (length (s_bm s)) = nfields pre) by (unfold nfields; rewrite (inv_len _ _ HI); reflexivity).
   rewrite Hnf in Hst.
   destruct (t_pc th) eqn:Hpc.
-  - (* idle: enter the next operation *)
+  2-19: (* not idle *)
+    match type of Hst with
+    | context [exec _ ?pp _] =>
+      pose proof (inv_exec pre s t th (t_prog th)
+                    (res_upd (snd (exec (nfields pre) pp (getf (s_bm s) (access_field pp)))) (t_res th))
+                    HI Hn) as HX;
+      rewrite Hpc in HX; specialize (HX ltac:(discriminate)); cbv zeta in HX;
+      destruct (exec (nfields pre) pp (getf (s_bm s) (access_field pp))) as [[p' w] ev'];
+      cbn [snd] in HX; unfold res_upd in HX; inversion Hst; subst; exact HX
+    end.
+  (* idle: enter the next operation *)
     destruct (t_prog th) as [|o rest] eqn:Hprog; [discriminate|].
     destruct (enter (nfields pre) (s_pool s) o) as [[p ev] pool1] eqn:He.
     destruct (enter_spec _ _ _ _ _ _ (inv_pool _ _ HI) He) as (E1 & E2 & E3).
@@ -935,22 +947,350 @@ Proof.
     match type of Hst with
     | context [exec _ ?pp _] =>
       pose proof (inv_exec pre _ t (mkT rest pp (t_res th)) rest
-                    (match snd (exec (nfields pre) pp (getf (s_bm s) (access_field pp))) with GNone => t_res th | e => e :: t_res th end)
+                    (res_upd (snd (exec (nfields pre) pp (getf (s_bm s) (access_field pp)))) (t_res th))
                     (HI1 (t_res th))) as HX;
       cbn [s_bm s_thr s_pool t_pc] in HX;
       rewrite nth_error_set_nth_same in HX by (eapply nth_error_lt, Hn);
       specialize (HX eq_refl ltac:(discriminate)); cbv zeta in HX;
       destruct (exec (nfields pre) pp (getf (s_bm s) (access_field pp))) as [[p' w] ev'];
-      cbn [snd] in HX; rewrite set_nth_set_nth in HX; inversion Hst; subst; exact HX
+      cbn [snd] in HX; unfold res_upd in HX; rewrite set_nth_set_nth in HX; inversion Hst; subst; exact HX
     end.
-  all: (* not idle *)
-    match type of Hst with
-    | context [exec _ ?pp _] =>
-      pose proof (inv_exec pre s t th (t_prog th)
-                    (match snd (exec (nfields pre) pp (getf (s_bm s) (access_field pp))) with GNone => t_res th | e => e :: t_res th end)
-                    HI Hn) as HX;
-      rewrite Hpc in HX; specialize (HX ltac:(discriminate)); cbv zeta in HX;
-      destruct (exec (nfields pre) pp (getf (s_bm s) (access_field pp))) as [[p' w] ev'];
-      cbn [snd] in HX; inversion Hst; subst; exact HX
-    end.
+Qed.
+
+Theorem reachable_inv pre progs s : bm_ok pre -> reachable pre progs s -> Inv pre s.
+Proof.
+  intros Hp Hr. induction Hr as [|s t s' a Hr IH Hst]; [apply inv_init, Hp|]. eapply step_inv; eassumption.
+Qed.
+
+Lemma run_schedule_reachable pre progs s sched : reachable pre progs s -> reachable pre progs (run_schedule s sched).
+Proof.
+  revert s. induction sched as [|t rest IH]; intros s Hr; cbn [run_schedule]; [exact Hr|].
+  apply IH. unfold step. destruct (stepx s t) as [[s' a]|] eqn:E; [|exact Hr]. eapply reach_step; eassumption.
+Qed.
+
+(* ---- corollaries ---- *)
+
+Lemma inv_flat pre s p : Inv pre s -> p < 64 * nfields pre -> Nat.b2n (bm_bit (s_bm s) p) = owners pre s p.
+Proof.
+  intros HI Hp. destruct (flat_split p) as [E Hb]. rewrite E at 1 2. rewrite bm_bit_ib by exact Hb.
+  rewrite <- E. assert (Hi : p / 64 < nfields pre) by lia.
+  pose proof (inv_cnt _ _ HI _ _ Hi Hb) as H. rewrite <- E in H. exact H.
+Qed.
+
+Lemma pool_cnt_in pool k c p : nth_error pool k = Some c -> in_rng (claim_rng (snd c)) p = true -> (1 <= pool_cnt pool p)%nat.
+Proof.
+  revert k. induction pool as [|x r IH]; intros [|k] H Hin; cbn in H; try discriminate; rewrite pool_cnt_cons.
+  - inversion H; subst. rewrite Hin. cbn. lia.
+  - specialize (IH _ H Hin). lia.
+Qed.
+Lemma pool_cnt_two pool k1 k2 c1 c2 p : k1 <> k2 ->
+  nth_error pool k1 = Some c1 -> nth_error pool k2 = Some c2 ->
+  in_rng (claim_rng (snd c1)) p = true -> in_rng (claim_rng (snd c2)) p = true -> (2 <= pool_cnt pool p)%nat.
+Proof.
+  revert k1 k2. induction pool as [|x r IH]; intros [|k1] [|k2] Hne H1 H2 I1 I2; cbn in H1, H2; try discriminate;
+    try congruence; rewrite pool_cnt_cons.
+  - inversion H1; subst. pose proof (pool_cnt_in _ _ _ _ H2 I2). rewrite I1. cbn. lia.
+  - inversion H2; subst. pose proof (pool_cnt_in _ _ _ _ H1 I1). rewrite I2. cbn. lia.
+  - assert (k1 <> k2) by congruence. specialize (IH _ _ H H1 H2 I1 I2). lia.
+Qed.
+Lemma pool_cnt_pos pool p : (1 <= pool_cnt pool p)%nat -> exists k c, nth_error pool k = Some c /\ in_rng (claim_rng (snd c)) p = true.
+Proof.
+  induction pool as [|x r IH]; intros H; [cbn in H; lia|]. rewrite pool_cnt_cons in H.
+  destruct (in_rng (claim_rng (snd x)) p) eqn:E.
+  - exists 0%nat, x. split; [reflexivity|exact E].
+  - cbn [Nat.b2n] in H. destruct (IH ltac:(lia)) as (k & c & Hk & Hc). exists (S k), c. split; assumption.
+Qed.
+
+Lemma thr_cnt_in thr t th p : nth_error thr t = Some th -> in_rng (held (t_pc th)) p = true -> (1 <= thr_cnt thr p)%nat.
+Proof.
+  revert t. induction thr as [|x r IH]; intros [|t] H Hin; cbn in H; try discriminate; unfold thr_cnt in *; cbn [fold_right].
+  - inversion H; subst. rewrite Hin. cbn. lia.
+  - specialize (IH _ H Hin). lia.
+Qed.
+Lemma thr_cnt_two thr t1 t2 th1 th2 p : t1 <> t2 ->
+  nth_error thr t1 = Some th1 -> nth_error thr t2 = Some th2 ->
+  in_rng (held (t_pc th1)) p = true -> in_rng (held (t_pc th2)) p = true -> (2 <= thr_cnt thr p)%nat.
+Proof.
+  revert t1 t2. induction thr as [|x r IH]; intros [|t1] [|t2] Hne H1 H2 I1 I2; cbn in H1, H2; try discriminate;
+    try congruence; unfold thr_cnt in *; cbn [fold_right].
+  - inversion H1; subst. pose proof (thr_cnt_in _ _ _ _ H2 I2). unfold thr_cnt in H. rewrite I1. cbn. lia.
+  - inversion H2; subst. pose proof (thr_cnt_in _ _ _ _ H1 I1). unfold thr_cnt in H. rewrite I2. cbn. lia.
+  - assert (t1 <> t2) by congruence. specialize (IH _ _ H H1 H2 I1 I2). lia.
+Qed.
+Lemma thr_cnt_pos thr p : (1 <= thr_cnt thr p)%nat -> exists t th, nth_error thr t = Some th /\ in_rng (held (t_pc th)) p = true.
+Proof.
+  induction thr as [|x r IH]; intros H; unfold thr_cnt in *; cbn [fold_right] in H; [lia|].
+  destruct (in_rng (held (t_pc x)) p) eqn:E.
+  - exists 0%nat, x. split; [reflexivity|exact E].
+  - cbn [Nat.b2n] in H. destruct (IH ltac:(lia)) as (k & c & Hk & Hc). exists (S k), c. split; assumption.
+Qed.
+
+(* bitmap_is_union: the bitmap is the disjoint union of the pre-claimed bits, the completed claims
+   and the partial claims of the threads inside an operation *)
+Theorem bitmap_is_union pre progs s : bm_ok pre -> reachable pre progs s ->
+  length (s_bm s) = length pre /\ bm_ok (s_bm s) /\
+  forall p, p < 64 * nfields pre ->
+    Nat.b2n (bm_bit (s_bm s) p) =
+    (Nat.b2n (bm_bit pre p) + pool_cnt (s_pool s) p + thr_cnt (s_thr s) p)%nat.
+Proof.
+  intros Hp Hr. pose proof (reachable_inv _ _ _ Hp Hr) as HI.
+  split; [apply (inv_len _ _ HI)|]. split; [apply (inv_lt _ _ HI)|]. intros p Hlt. apply (inv_flat _ _ _ HI Hlt).
+Qed.
+
+(* the same, spelled out: a bit is set iff it has an owner *)
+Theorem bit_set_iff_owned pre progs s p : bm_ok pre -> reachable pre progs s -> p < 64 * nfields pre ->
+  (bm_bit (s_bm s) p = true <->
+   bm_bit pre p = true \/
+   (exists k c, nth_error (s_pool s) k = Some c /\ in_rng (claim_rng (snd c)) p = true) \/
+   (exists t th, nth_error (s_thr s) t = Some th /\ in_rng (held (t_pc th)) p = true)).
+Proof.
+  intros Hp Hr Hlt. destruct (bitmap_is_union _ _ _ Hp Hr) as (_ & _ & H). specialize (H p Hlt). split.
+  - intros Hb. rewrite Hb in H. cbn [Nat.b2n] in H.
+    destruct (bm_bit pre p); [left; reflexivity|right]. cbn [Nat.b2n] in H.
+    destruct (Nat.eq_dec (pool_cnt (s_pool s) p) 0) as [E|E].
+    + right. apply thr_cnt_pos. lia.
+    + left. apply pool_cnt_pos. lia.
+  - intros [Hb|[(k & c & Hk & Hc)|(t & th & Ht & Hc)]].
+    + rewrite Hb in H. destruct (bm_bit (s_bm s) p); [reflexivity|]. cbn in H. lia.
+    + pose proof (pool_cnt_in _ _ _ _ Hk Hc). destruct (bm_bit (s_bm s) p); [reflexivity|]. cbn in H. lia.
+    + pose proof (thr_cnt_in _ _ _ _ Ht Hc). destruct (bm_bit (s_bm s) p); [reflexivity|]. cbn in H. lia.
+Qed.
+
+(* claims_disjoint_in_range: completed claims are non-empty, inside the bitmap, pairwise disjoint,
+   disjoint from the pre-claimed bits and from every partial claim, and all their bits are set
+   (so the double-free check of _mi_arena_free passes for them) *)
+Theorem claims_disjoint_in_range pre progs s k1 c1 : bm_ok pre -> reachable pre progs s ->
+  nth_error (s_pool s) k1 = Some c1 ->
+  let '(start, count) := snd c1 in
+  1 <= count /\ start + count <= 64 * nfields pre /\
+  (forall p, start <= p < start + count ->
+     bm_bit (s_bm s) p = true /\ bm_bit pre p = false /\
+     (forall k2 c2, k2 <> k1 -> nth_error (s_pool s) k2 = Some c2 -> in_rng (claim_rng (snd c2)) p = false) /\
+     (forall t th, nth_error (s_thr s) t = Some th -> in_rng (held (t_pc th)) p = false)).
+Proof.
+  intros Hp Hr Hk. pose proof (reachable_inv _ _ _ Hp Hr) as HI.
+  pose proof (Forall_nth_error _ _ _ _ (inv_pool _ _ HI) Hk) as Hw. unfold wf_claim in Hw.
+  destruct (snd c1) as [start count] eqn:Ec. cbn [fst snd] in Hw.
+  split; [lia|]. split; [lia|]. intros p Hin.
+  assert (Hlt : p < 64 * nfields pre) by lia.
+  pose proof (inv_flat _ _ _ HI Hlt) as H. unfold owners in H.
+  assert (Hc1 : in_rng (claim_rng (snd c1)) p = true) by (rewrite Ec; unfold in_rng, claim_rng; cbn [fst snd]; lia).
+  pose proof (pool_cnt_in _ _ _ _ Hk Hc1) as H1.
+  assert (Hle : (Nat.b2n (bm_bit (s_bm s) p) <= 1)%nat) by (destruct (bm_bit (s_bm s) p); cbn; lia).
+  repeat split.
+  - destruct (bm_bit (s_bm s) p); [reflexivity|]. cbn in H. lia.
+  - destruct (bm_bit pre p); [|reflexivity]. cbn in H. lia.
+  - intros k2 c2 Hne Hk2. destruct (in_rng (claim_rng (snd c2)) p) eqn:E2; [|reflexivity].
+    pose proof (pool_cnt_two _ _ _ _ _ _ Hne Hk2 Hk E2 Hc1). lia.
+  - intros t th Ht. destruct (in_rng (held (t_pc th)) p) eqn:E2; [|reflexivity].
+    pose proof (thr_cnt_in _ _ _ _ Ht E2). lia.
+Qed.
+
+(* purge_claim_exclusive: the bits temporarily claimed by the purger are set, not pre-claimed, in no
+   completed claim and held by no other thread *)
+Theorem purge_claim_exclusive pre progs s t th bi len : bm_ok pre -> reachable pre progs s ->
+  nth_error (s_thr s) t = Some th -> t_pc th = PUnclaim bi len ->
+  bi + len <= 64 * nfields pre /\
+  forall p, bi <= p < bi + len ->
+    bm_bit (s_bm s) p = true /\ bm_bit pre p = false /\ pool_cnt (s_pool s) p = 0%nat /\
+    (forall t' th', t' <> t -> nth_error (s_thr s) t' = Some th' -> in_rng (held (t_pc th')) p = false).
+Proof.
+  intros Hp Hr Ht Hpc. pose proof (reachable_inv _ _ _ Hp Hr) as HI.
+  pose proof (Forall_nth_error _ _ _ _ (inv_wf _ _ HI) Ht) as Hw. cbv beta in Hw. rewrite Hpc in Hw. cbn [wf_pc] in Hw.
+  unfold index_bit_in_field, index_field in Hw.
+  split; [lia|]. intros p Hin. assert (Hlt : p < 64 * nfields pre) by lia.
+  pose proof (inv_flat _ _ _ HI Hlt) as H. unfold owners in H.
+  assert (Hh : in_rng (held (t_pc th)) p = true) by (rewrite Hpc; unfold in_rng; cbn [held fst snd]; lia).
+  pose proof (thr_cnt_in _ _ _ _ Ht Hh) as H1.
+  assert (Hle : (Nat.b2n (bm_bit (s_bm s) p) <= 1)%nat) by (destruct (bm_bit (s_bm s) p); cbn; lia).
+  repeat split.
+  - destruct (bm_bit (s_bm s) p); [reflexivity|]. cbn in H. lia.
+  - destruct (bm_bit pre p); [|reflexivity]. cbn in H. lia.
+  - lia.
+  - intros t' th' Hne Ht'. destruct (in_rng (held (t_pc th')) p) eqn:E2; [|reflexivity].
+    pose proof (thr_cnt_two _ _ _ _ _ _ Hne Ht' Ht E2 Hh). lia.
+Qed.
+
+(* ---- a failed find-and-claim leaves nothing behind ---- *)
+
+Definition is_claim_pc (p : pc) : bool :=
+  match p with
+  | FLoad _ | FCas _ _ _ _ | ALoad _ | AScan _ _ _ | AInitLoad _ | AInitCas _ _ | AMidCas _ _ | AFinalLoad _
+  | AFinalCas _ _ | ARollStore _ _ | ARollInitLoad _ | ARollInitCas _ _ => true
+  | _ => false
+  end.
+
+Lemma next_field_failed fields l : snd (next_field fields l) = GClaimFailed -> fst (next_field fields l) = Idle.
+Proof. unfold next_field. destruct (cl_visited l + 1 <? fields); cbn; [discriminate|reflexivity]. Qed.
+Lemma field_scan_failed fields l map b m : snd (field_scan fields l map b m) = GClaimFailed -> fst (field_scan fields l map b m) = Idle.
+Proof. unfold field_scan. destruct (scan_field _ _ _ _ _) as [[? ?]|]; [cbn; discriminate|apply next_field_failed]. Qed.
+Lemma after_rollback_failed fields l : snd (after_rollback fields l) = GClaimFailed -> fst (after_rollback fields l) = Idle.
+Proof. unfold after_rollback. destruct (cl_retries l <=? 2); [cbn; discriminate|apply next_field_failed]. Qed.
+Lemma rollback_from_failed fields l f : snd (rollback_from fields l f) = GClaimFailed -> fst (rollback_from fields l f) = Idle.
+Proof.
+  unfold rollback_from. destruct (f =? cl_idx l); [apply after_rollback_failed|].
+  destruct (f =? cl_idx l + 1); cbn; discriminate.
+Qed.
+Lemma init_try_failed fields l v : snd (init_try fields l v) = GClaimFailed -> fst (init_try fields l v) = Idle.
+Proof. unfold init_try. destruct (negb _); [apply rollback_from_failed|cbn; discriminate]. Qed.
+Lemma final_try_failed fields l v : snd (final_try fields l v) = GClaimFailed -> fst (final_try fields l v) = Idle.
+Proof. unfold final_try. destruct (negb _); [apply rollback_from_failed|cbn; discriminate]. Qed.
+Lemma u_next_not_failed u j k a : snd (u_next u j k a) <> GClaimFailed.
+Proof. unfold u_next. destruct (0 <? k); [cbn; discriminate|]. destruct (negb _); cbn; discriminate. Qed.
+Lemma p_dec_not_failed bi len : snd (p_dec bi len) <> GClaimFailed.
+Proof. unfold p_dec. destruct (0 <? len - 1); cbn; discriminate. Qed.
+Lemma p_try_not_failed bi len v : snd (p_try bi len v) <> GClaimFailed.
+Proof. unfold p_try. destruct (negb _); [apply p_dec_not_failed|cbn; discriminate]. Qed.
+
+Lemma exec_claimfailed fields p v p' w :
+  exec fields p v = (p', w, GClaimFailed) -> p' = Idle /\ is_claim_pc p = true.
+Proof.
+  intros H.
+  assert (G : forall (x : pc * gev) (w0 : option N), (fst x, w0, snd x) = (p', w, GClaimFailed) ->
+              (snd x = GClaimFailed -> fst x = Idle) -> p' = Idle).
+  { intros x w0 E Hx. inversion E; subst. apply Hx. assumption. }
+  destruct p; cbn [exec] in H; cbv zeta in H; cbn [is_claim_pc]; (split; [|try reflexivity]);
+    repeat match type of H with
+           | context [if ?c then _ else _] => destruct c
+           end;
+    try (inversion H; fail);
+    try (eapply G; [exact H|]; first [apply next_field_failed | apply field_scan_failed | apply after_rollback_failed
+                                     | apply rollback_from_failed | apply init_try_failed | apply final_try_failed]);
+    try (exfalso; inversion H;
+         first [ eapply u_next_not_failed; eassumption | eapply p_try_not_failed; eassumption | eapply p_dec_not_failed; eassumption ]).
+Qed.
+
+Lemma list_neq_cons {A} (x : A) l : l <> x :: l.
+Proof. intros H. apply (f_equal (@length A)) in H. cbn in H. lia. Qed.
+
+Lemma enter_claim_pool fields pool o p ev pool1 :
+  enter fields pool o = (p, ev, pool1) -> is_claim_pc p = true \/ ev = GClaimFailed -> pool1 = pool.
+Proof.
+  intros He Hc. destruct o as [start count|start count|bi len]; cbn [enter] in He.
+  - destruct (_ || _); inversion He; reflexivity.
+  - destruct (pool_remove pool (start, count)).
+    + destruct (mask_across start fields count) as [[[? ?] ?] ?]. inversion He; subst. cbn in Hc. destruct Hc; discriminate.
+    + inversion He; subst. reflexivity.
+  - destruct (_ && _); inversion He; reflexivity.
+Qed.
+
+(* the step in which an operation of thread t returns false: the thread is idle afterwards, the pool
+   of completed claims is unchanged, the thread holds no bit, and every set bit of the bitmap belongs
+   to the pre-claimed bits, to a completed claim or to the partial claim of ANOTHER thread *)
+Theorem rollback_leaves_nothing pre progs s t s' a th th' :
+  bm_ok pre -> reachable pre progs s -> stepx s t = Some (s', a) ->
+  nth_error (s_thr s) t = Some th -> nth_error (s_thr s') t = Some th' ->
+  t_res th' = GClaimFailed :: t_res th ->
+  t_pc th' = Idle /\ s_pool s' = s_pool s /\
+  forall p, p < 64 * nfields pre ->
+    in_rng (held (t_pc th')) p = false /\
+    (bm_bit (s_bm s') p = true ->
+       bm_bit pre p = true \/
+       (exists k c, nth_error (s_pool s) k = Some c /\ in_rng (claim_rng (snd c)) p = true) \/
+       (exists t2 th2, t2 <> t /\ nth_error (s_thr s') t2 = Some th2 /\ in_rng (held (t_pc th2)) p = true)).
+Proof.
+  intros Hp Hr Hst Hn Hn' Hres.
+  assert (Hr' : reachable pre progs s') by (eapply reach_step; eassumption).
+  assert (Hcore : t_pc th' = Idle /\ s_pool s' = s_pool s).
+  { unfold stepx in Hst. rewrite Hn in Hst.
+    assert (Hlen : (t < length (s_thr s))%nat) by (eapply nth_error_lt, Hn).
+    destruct (t_pc th) eqn:Hpc.
+    2-19: match type of Hst with
+      | context [exec ?f ?pp ?vv] =>
+        destruct (exec f pp vv) as [[p' w] ev'] eqn:Ex; inversion Hst; subst s'; clear Hst;
+        cbn [s_thr s_pool] in *; rewrite nth_error_set_nth_same in Hn' by exact Hlen;
+        inversion Hn'; subst th'; cbn [t_res t_pc] in *;
+        destruct ev'; try (exfalso; eapply list_neq_cons; eassumption); try discriminate;
+        apply exec_claimfailed in Ex; destruct Ex as [-> _]; split; reflexivity
+      end.
+    destruct (t_prog th) as [|o rest]; [discriminate|].
+    destruct (enter _ (s_pool s) o) as [[p ev] pool1] eqn:He.
+    destruct p eqn:Hp0.
+    { inversion Hst; subst s'; clear Hst. cbn [s_thr s_pool] in *.
+      rewrite nth_error_set_nth_same in Hn' by exact Hlen. inversion Hn'; subst th'. cbn [t_res t_pc] in *.
+      split; [reflexivity|]. apply (enter_claim_pool _ _ _ _ _ _ He). right. congruence. }
+    all: match type of Hst with
+      | context [exec ?f ?pp ?vv] =>
+        destruct (exec f pp vv) as [[p' w] ev'] eqn:Ex; inversion Hst; subst s'; clear Hst;
+        cbn [s_thr s_pool] in *; rewrite nth_error_set_nth_same in Hn' by exact Hlen;
+        inversion Hn'; subst th'; cbn [t_res t_pc] in *;
+        destruct ev'; try (exfalso; eapply list_neq_cons; eassumption); try discriminate;
+        apply exec_claimfailed in Ex; destruct Ex as [-> Hc]; (split; [reflexivity|]);
+        apply (enter_claim_pool _ _ _ _ _ _ He); left; exact Hc
+      end. }
+  destruct Hcore as [Hidle Hpool]. split; [exact Hidle|]. split; [exact Hpool|].
+  intros p Hlt. rewrite Hidle. split; [unfold in_rng; cbn [held fst snd]; lia|]. intros Hb.
+  apply (bit_set_iff_owned _ _ _ _ Hp Hr' Hlt) in Hb. rewrite Hpool in Hb.
+  destruct Hb as [Hb|[Hb|(t2 & th2 & Ht2 & Hin)]]; [left; exact Hb|right; left; exact Hb|].
+  right. right. exists t2, th2. repeat split; try assumption.
+  intros ->. rewrite Hn' in Ht2. inversion Ht2; subst th2. rewrite Hidle in Hin. unfold in_rng in Hin. cbn [held fst snd] in Hin. lia.
+Qed.
+
+(* a thread between two operations holds nothing: in a quiescent state the bitmap consists of the
+   pre-claimed bits and the completed claims only *)
+Theorem quiescent_bitmap pre progs s : bm_ok pre -> reachable pre progs s ->
+  (forall th, In th (s_thr s) -> t_pc th = Idle) ->
+  forall p, p < 64 * nfields pre ->
+    Nat.b2n (bm_bit (s_bm s) p) = (Nat.b2n (bm_bit pre p) + pool_cnt (s_pool s) p)%nat.
+Proof.
+  intros Hp Hr Hidle p Hlt. destruct (bitmap_is_union _ _ _ Hp Hr) as (_ & _ & H). rewrite (H p Hlt).
+  assert (E : thr_cnt (s_thr s) p = 0%nat).
+  { clear - Hidle. induction (s_thr s) as [|x r IH]; [reflexivity|]. unfold thr_cnt in *. cbn [fold_right].
+    rewrite (Hidle x (or_introl eq_refl)). rewrite IH by (intros th Hin; apply Hidle; right; exact Hin).
+    unfold in_rng. cbn [held fst snd]. lia. }
+  lia.
+Qed.
+
+(* when every claim has been freed and all threads are idle the bitmap is the initial one again *)
+Theorem all_freed_restores pre progs s : bm_ok pre -> reachable pre progs s ->
+  (forall th, In th (s_thr s) -> t_pc th = Idle) -> s_pool s = [] -> s_bm s = pre.
+Proof.
+  intros Hp Hr Hidle Hpool.
+  pose proof (reachable_inv _ _ _ Hp Hr) as HI.
+  apply bm_ext; [apply (inv_len _ _ HI)|]. intros i Hi.
+  assert (Hi' : i < nfields pre) by (unfold nfields in *; rewrite <- (inv_len _ _ HI); exact Hi).
+  apply eq_of_bits64; [apply getf_lt, (inv_lt _ _ HI)|apply getf_lt, Hp|]. intros b Hb.
+  pose proof (quiescent_bitmap _ _ _ Hp Hr Hidle (64 * i + b) ltac:(lia)) as H.
+  rewrite Hpool in H. rewrite !bm_bit_ib in H by exact Hb. unfold pool_cnt in H. cbn [fold_right] in H.
+  destruct (N.testbit (getf (s_bm s) i) b), (N.testbit (getf pre i) b); cbn in H; try reflexivity; lia.
+Qed.
+
+(* ---- the boolean form of the invariant ---- *)
+
+Lemma all_below_spec n f : all_below n f = true -> forall k, (k < n)%nat -> f (N.of_nat k) = true.
+Proof.
+  induction n as [|n IH]; intros H k Hk; [lia|]. cbn [all_below] in H. apply andb_prop in H as [H1 H2].
+  destruct (Nat.eq_dec k n) as [->|Hne]; [exact H1|]. apply IH; [exact H2|lia].
+Qed.
+Lemma all_below_intro n f : (forall k, (k < n)%nat -> f (N.of_nat k) = true) -> all_below n f = true.
+Proof.
+  induction n as [|n IH]; intros H; [reflexivity|]. cbn [all_below]. rewrite H by lia. rewrite IH; [reflexivity|].
+  intros k Hk. apply H. lia.
+Qed.
+
+Theorem inv_b_sound pre s : inv_b pre s = true -> Inv pre s.
+Proof.
+  unfold inv_b. intros H.
+  apply andb_prop in H as [H H5]. apply andb_prop in H as [H H4]. apply andb_prop in H as [H H3].
+  apply andb_prop in H as [H1 H2].
+  constructor.
+  - apply Nat.eqb_eq. assumption.
+  - unfold bm_ok. apply Forall_forall. intros x Hx. rewrite forallb_forall in H2. specialize (H2 x Hx). lia.
+  - apply Forall_forall. intros x Hx. rewrite forallb_forall in H3. apply (H3 x Hx).
+  - apply Forall_forall. intros x Hx. rewrite forallb_forall in H4. apply (H4 x Hx).
+  - intros i b Hi Hb. unfold nfields in Hi.
+    pose proof (all_below_spec _ _ H5 (N.to_nat (64 * i + b)) ltac:(lia)) as Hk. rewrite N2Nat.id in Hk.
+    apply Nat.eqb_eq in Hk. rewrite bm_bit_ib in Hk by exact Hb. exact Hk.
+Qed.
+
+Theorem inv_b_complete pre s : Inv pre s -> inv_b pre s = true.
+Proof.
+  intros [I1 I2 I3 I4 I5]. unfold inv_b. repeat (apply andb_true_intro; split).
+  - apply Nat.eqb_eq. exact I1.
+  - apply forallb_forall. intros x Hx. unfold bm_ok in I2. rewrite Forall_forall in I2. specialize (I2 x Hx). lia.
+  - apply forallb_forall. intros x Hx. rewrite Forall_forall in I3. apply (I3 x Hx).
+  - apply forallb_forall. intros x Hx. rewrite Forall_forall in I4. apply (I4 x Hx).
+  - apply all_below_intro. intros k Hk. apply Nat.eqb_eq.
+    destruct (flat_split (N.of_nat k)) as [E Hb]. rewrite E. rewrite bm_bit_ib by exact Hb.
+    apply I5; [unfold nfields; lia|exact Hb].
 Qed.
